@@ -6,6 +6,9 @@ package store
 // its real Txn code, around an injected etcd client (NewEtcdMetaStore dials and checks endpoints).
 
 import (
+	"context"
+	"database/sql"
+
 	clientv3 "go.etcd.io/etcd/client/v3"
 
 	api2 "github.com/zilliztech/milvus-cdc/core/api"
@@ -23,4 +26,32 @@ func NewVerifEtcdMetaStore(cli *clientv3.Client, rootPath string, rep api2.Repli
 		taskCollectionPositionStore: &TaskCollectionPositionEtcdStore{log: l, rootPath: rootPath, etcdClient: cli, txnMap: txnMap},
 		txnMap:                      txnMap,
 	}
+}
+
+// NewVerifMySQLMetaStore builds the real MySQLMetaStore (real task / position / replicate stores, real Txn)
+// around an injected *sql.DB (NewMySQLMetaStore opens and pings a MySQL server).
+func NewVerifMySQLMetaStore(ctx context.Context, db *sql.DB, rootPath string) (*MySQLMetaStore, error) {
+	txnMap := make(map[any]func() *sql.Tx)
+	ti, err := NewTaskInfoMysqlStore(ctx, db, rootPath, txnMap)
+	if err != nil {
+		return nil, err
+	}
+	tp, err := NewTaskCollectionPositionMysqlStore(ctx, db, rootPath, txnMap)
+	if err != nil {
+		return nil, err
+	}
+	// the table creation of NewMySQLReplicateStore
+	if _, err = db.ExecContext(ctx, `
+		CREATE TABLE IF NOT EXISTS task_msg (
+			task_msg_key VARCHAR(255) NOT NULL,
+			task_msg_value JSON NOT NULL,
+			PRIMARY KEY (task_msg_key),
+			INDEX idx_key (task_msg_key)
+		)
+	`); err != nil {
+		return nil, err
+	}
+	l := log.L()
+	return &MySQLMetaStore{log: l, db: db, taskInfoStore: ti, taskCollectionPositionStore: tp,
+		replicateStore: &MySQLReplicateStore{log: l, db: db, rootPath: rootPath}, txnMap: txnMap}, nil
 }
